@@ -1,29 +1,133 @@
+// govc: contract-based deductive verification driver for /repo (see /verif/DESIGN.md).
 package main
 
 import (
+	"encoding/json"
+	"flag"
 	"fmt"
 	"os"
+	"os/exec"
+	"path/filepath"
+	"regexp"
+	"sort"
+	"strconv"
+	"strings"
+	"sync"
 	"time"
 
 	"govc/vc"
 )
 
+type PropCfg struct {
+	Pkg      string   `json:"pkg"`      // package dir of the replay harness ("." or "stanza")
+	Funcs    []string `json:"funcs"`    // functions under contract in this property's closure
+	Lemmas   []string `json:"lemmas"`   // lemma labels
+	Replay   string   `json:"replay"`   // replay harness name (file replay/<name>_replay_test.go)
+	Level    string   `json:"level"`    // proof | other
+	Bounded  []string `json:"bounded"`  // descriptions of bounded stand-ins (never counted as proved)
+	Undecided []string `json:"undecided"` // clauses of the property this family does not decide
+}
+
+type Finding struct {
+	Property   string `json:"property"`
+	Obligation string `json:"obligation"`
+	What       string `json:"what"`
+	Witness    string `json:"witness"`
+}
+
+type Findings struct {
+	Open  []Finding `json:"open"`
+	Fixed []string  `json:"fixed"`
+}
+
+type oblReport struct {
+	Name    string  `json:"name"`
+	Clause  string  `json:"clause,omitempty"`
+	Pos     string  `json:"pos,omitempty"`
+	Status  string  `json:"status"`
+	Solver  string  `json:"solver,omitempty"`
+	Seconds float64 `json:"seconds"`
+}
+
+var (
+	verifDir = "/verif"
+	repoDir  = "/repo"
+)
+
 func main() {
-	p, err := vc.Load("/repo")
-	if err != nil {
-		fmt.Println("load:", err)
+	if len(os.Args) < 2 {
+		fmt.Println("usage: govc check|dump|replay ...")
 		os.Exit(2)
 	}
-	cs, err := vc.LoadAll("/repo", "/verif")
-	if err != nil {
-		fmt.Println("contracts:", err)
+	switch os.Args[1] {
+	case "check":
+		os.Exit(cmdCheck(os.Args[2:]))
+	case "dump":
+		os.Exit(cmdDump(os.Args[2:]))
+	case "replay":
+		os.Exit(cmdReplay(os.Args[2:]))
+	default:
+		fmt.Println("unknown command", os.Args[1])
 		os.Exit(2)
+	}
+}
+
+func loadProgram(repo string) (*vc.Program, error) {
+	p, err := vc.Load(repo)
+	if err != nil {
+		return nil, err
+	}
+	cs, err := vc.LoadAll(repo, verifDir)
+	if err != nil {
+		return nil, err
 	}
 	p.CS = cs
-	scratch, _ := os.MkdirTemp("/var/tmp", "govc")
-	defer os.RemoveAll(scratch)
-	for _, key := range os.Args[1:] {
-		u, err := p.VerifyFunc(key)
+	return p, nil
+}
+
+func scratchDir() string {
+	base := os.Getenv("VERIF_SCRATCH")
+	if base == "" {
+		base = "/var/tmp"
+	}
+	d, err := os.MkdirTemp(base, "govc-")
+	if err != nil {
+		d, _ = os.MkdirTemp("", "govc-")
+	}
+	return d
+}
+
+func cmdDump(args []string) int {
+	fs := flag.NewFlagSet("dump", flag.ExitOnError)
+	repo := fs.String("repo", repoDir, "repository")
+	obl := fs.String("obl", "", "obligation whose query is written to stdout")
+	all := fs.Bool("v", false, "list discharged obligations too")
+	to := fs.Int("t", 10, "timeout seconds")
+	fs.Parse(args)
+	p, err := loadProgram(*repo)
+	if err != nil {
+		fmt.Println("ENGINE-ERROR load:", err)
+		return 2
+	}
+	sc := scratchDir()
+	defer os.RemoveAll(sc)
+	for _, key := range fs.Args() {
+		var u *vc.Unit
+		if strings.HasPrefix(key, "lemma:") {
+			var ax *vc.Axiom
+			for _, l := range p.CS.Lemmas {
+				if l.Label == key[6:] {
+					ax = l
+				}
+			}
+			if ax == nil {
+				fmt.Println("no lemma", key)
+				continue
+			}
+			u, err = p.VerifyLemma(ax)
+		} else {
+			u, err = p.VerifyFunc(key)
+		}
 		if err != nil {
 			fmt.Println("ERR", err)
 			continue
@@ -31,15 +135,496 @@ func main() {
 		for _, s := range u.Unsupported {
 			fmt.Println("UNSUPPORTED", s)
 		}
-		rs := vc.SolveAll(u.Obls, vc.SolverCfg{Timeout: 10 * time.Second, Scratch: scratch, Models: true}, 16)
-		for _, r := range rs {
-			fmt.Printf("%-8s %-8s %.2fs %s   // %s\n", r.Status, r.Solver, r.Seconds, r.Obl.Name, r.Obl.Src)
-			if os.Getenv("DUMP") == r.Obl.Name {
-				os.WriteFile("/tmp/dump.smt2", []byte(r.Obl.Query(true)), 0644)
+		for _, s := range u.Unspecified() {
+			fmt.Println("UNSPECIFIED", s)
+		}
+		if *obl != "" {
+			for _, o := range u.Obls {
+				if o.Name == *obl {
+					fmt.Print(o.Query(true))
+				}
 			}
+			continue
+		}
+		rs := vc.SolveAll(u.Obls, vc.SolverCfg{Timeout: time.Duration(*to) * time.Second, Scratch: sc, Models: true}, 16)
+		for _, r := range rs {
+			ok := (r.Status == "unsat" && !r.Obl.Cover) || (r.Status == "sat" && r.Obl.Cover)
+			if ok && !*all {
+				continue
+			}
+			fmt.Printf("%-8s %-8s %.2fs %s   // %s\n", r.Status, r.Solver, r.Seconds, r.Obl.Name, r.Obl.Src)
 			if r.Status == "error" {
 				fmt.Println(r.Output)
 			}
 		}
+		fmt.Printf("%s: %d obligations\n", key, len(u.Obls))
 	}
+	return 0
+}
+
+func belongs(label, prop string) bool {
+	if label == "" {
+		return true
+	}
+	for _, part := range strings.Split(label, ",") {
+		if strings.HasPrefix(part, prop+".") {
+			return true
+		}
+	}
+	// labels of the form Cxx.* belong to other properties; anything else is infrastructure
+	return !regexp.MustCompile(`^C\d\d`).MatchString(label)
+}
+
+func cmdCheck(args []string) int {
+	fs := flag.NewFlagSet("check", flag.ExitOnError)
+	repo := fs.String("repo", repoDir, "repository under verification")
+	prop := fs.String("prop", "", "property id")
+	tier := fs.String("tier", "quick", "quick|thorough")
+	noEvidence := fs.Bool("no-evidence", false, "do not write evidence (self-tests on scratch copies)")
+	noReplay := fs.Bool("no-replay", false, "skip replay on the real code")
+	updateBaseline := fs.Bool("update-baseline", false, "rewrite the obligation baseline for this property")
+	fs.Parse(args)
+	if t := os.Getenv("VERIF_TIER"); t != "" && *tier == "" {
+		*tier = t
+	}
+	seed := 1
+	if s := os.Getenv("VERIF_SEED"); s != "" {
+		if n, err := strconv.Atoi(s); err == nil {
+			seed = n
+		}
+	}
+	start := time.Now()
+	var cfgs map[string]*PropCfg
+	if err := readJSON(filepath.Join(verifDir, "props.json"), &cfgs); err != nil {
+		fmt.Println("ENGINE-ERROR props.json:", err)
+		return 2
+	}
+	cfg := cfgs[*prop]
+	if cfg == nil {
+		fmt.Println("ENGINE-ERROR unknown property", *prop)
+		return 2
+	}
+	var kf Findings
+	readJSON(filepath.Join(verifDir, "known_findings.json"), &kf)
+	var baseline map[string][]string
+	readJSON(filepath.Join(verifDir, "obligations.baseline.json"), &baseline)
+
+	p, err := loadProgram(*repo)
+	if err != nil {
+		fmt.Println("ENGINE-ERROR load:", err)
+		return 2
+	}
+	sc := scratchDir()
+	defer os.RemoveAll(sc)
+
+	// generate
+	type unitRes struct {
+		key  string
+		u    *vc.Unit
+		err  error
+	}
+	units := make([]unitRes, len(cfg.Funcs)+len(cfg.Lemmas))
+	var wg sync.WaitGroup
+	for i, k := range cfg.Funcs {
+		wg.Add(1)
+		go func(i int, k string) {
+			defer wg.Done()
+			defer func() {
+				if r := recover(); r != nil {
+					units[i] = unitRes{key: k, err: fmt.Errorf("generator panic: %v", r)}
+				}
+			}()
+			u, err := p.VerifyFunc(k)
+			units[i] = unitRes{k, u, err}
+		}(i, k)
+	}
+	for j, l := range cfg.Lemmas {
+		i := len(cfg.Funcs) + j
+		var ax *vc.Axiom
+		for _, x := range p.CS.Lemmas {
+			if x.Label == l {
+				ax = x
+			}
+		}
+		if ax == nil {
+			units[i] = unitRes{key: "lemma:" + l, err: fmt.Errorf("lemma %s not found in contract files", l)}
+			continue
+		}
+		wg.Add(1)
+		go func(i int, ax *vc.Axiom) {
+			defer wg.Done()
+			u, err := p.VerifyLemma(ax)
+			units[i] = unitRes{"lemma:" + ax.Label, u, err}
+		}(i, ax)
+	}
+	wg.Wait()
+
+	var obls []*vc.Obligation
+	var genFailures []string
+	trusted := map[string]bool{}
+	unspec := map[string]bool{}
+	notes := map[string]bool{}
+	for _, ur := range units {
+		if ur.err != nil {
+			genFailures = append(genFailures, fmt.Sprintf("%s: %v", ur.key, ur.err))
+			continue
+		}
+		for _, s := range ur.u.Unsupported {
+			genFailures = append(genFailures, "unsupported: "+s)
+		}
+		for _, o := range ur.u.Obls {
+			if belongs(o.Label, *prop) {
+				obls = append(obls, o)
+			}
+		}
+		for _, t := range ur.u.TrustedUsed() {
+			trusted[t] = true
+		}
+		for _, t := range ur.u.Unspecified() {
+			unspec[t] = true
+		}
+		for _, n := range ur.u.Notes() {
+			notes[n] = true
+		}
+	}
+	timeout := 10 * time.Second
+	if *tier == "thorough" {
+		timeout = 60 * time.Second
+	}
+	results := vc.SolveAll(obls, vc.SolverCfg{Timeout: timeout, Scratch: sc, Models: true, AllAgree: *tier == "thorough"}, 16)
+
+	// classify
+	var reports []oblReport
+	nObl, nDis := 0, 0
+	var failed []vc.Result
+	var engineErrs []string
+	solverTime := map[string]float64{}
+	bySolver := map[string]int{}
+	names := map[string]bool{}
+	covers, coversOK := 0, 0
+	failedIn := map[string]bool{}
+	for _, r := range results {
+		if !r.Obl.Cover && r.Status != "unsat" {
+			failedIn[r.Obl.Func] = true
+		}
+	}
+	for _, r := range results {
+		names[r.Obl.Name] = true
+		solverTime[r.Solver] += r.Seconds
+		if r.Obl.Cover {
+			covers++
+			switch r.Status {
+			case "sat":
+				coversOK++
+			case "unsat":
+				if failedIn[r.Obl.Func] {
+					// a failed obligation is assumed afterwards, which may cut off everything behind it
+					continue
+				}
+				engineErrs = append(engineErrs, "vacuous: "+r.Obl.Name+" is unreachable (contradictory requires/invariant/assumed contract?)")
+			}
+			continue
+		}
+		nObl++
+		rep := oblReport{Name: r.Obl.Name, Clause: r.Obl.Src, Pos: r.Obl.Pos, Status: r.Status, Solver: r.Solver, Seconds: round3(r.Seconds)}
+		if r.Status == "unsat" {
+			nDis++
+			bySolver[r.Solver]++
+			rep.Status = "discharged"
+		} else {
+			if r.Status == "error" {
+				engineErrs = append(engineErrs, "solver error on "+r.Obl.Name+": "+firstLines(r.Output, 3))
+			}
+			failed = append(failed, r)
+		}
+		reports = append(reports, rep)
+	}
+	// baseline: obligations that existed on the unchanged tree must still exist
+	var missing []string
+	if !*updateBaseline {
+		for _, n := range baseline[*prop] {
+			if !names[n] {
+				missing = append(missing, n)
+			}
+		}
+	}
+	if *updateBaseline {
+		if baseline == nil {
+			baseline = map[string][]string{}
+		}
+		var ns []string
+		for _, r := range results {
+			ns = append(ns, r.Obl.Name)
+		}
+		sort.Strings(ns)
+		baseline[*prop] = ns
+		writeJSON(filepath.Join(verifDir, "obligations.baseline.json"), baseline)
+	}
+
+	// known findings
+	known := map[string]Finding{}
+	for _, f := range kf.Open {
+		if f.Property == *prop {
+			known[f.Obligation] = f
+		}
+	}
+	violations := 0
+	var lines []string
+	knownHit := map[string]bool{}
+	replayDir := filepath.Join(verifDir, "replays", *prop)
+	type fail struct {
+		name, reason, output, model string
+	}
+	var fails []fail
+	for _, r := range failed {
+		if f, ok := known[r.Obl.Name]; ok {
+			knownHit[f.Obligation] = true
+			continue
+		}
+		fails = append(fails, fail{r.Obl.Name, fmt.Sprintf("%s (%s; clause: %s; at %s)", r.Status, r.Solver, r.Obl.Src, r.Obl.Pos), r.Output, r.Model})
+	}
+	for _, m := range missing {
+		if _, ok := known[m]; ok {
+			knownHit[m] = true
+			continue
+		}
+		fails = append(fails, fail{m, "obligation of the unchanged tree no longer generated (contract does not bind / code path removed)", "", ""})
+	}
+	for _, g := range genFailures {
+		fails = append(fails, fail{"generator", g, "", ""})
+	}
+	for _, f := range kf.Open {
+		if f.Property == *prop {
+			if knownHit[f.Obligation] {
+				lines = append(lines, fmt.Sprintf("KNOWN-FINDING: property=%s %s [%s]", *prop, f.What, f.Obligation))
+			} else {
+				lines = append(lines, fmt.Sprintf("NOTE: known finding %s no longer fails (%s)", f.Obligation, f.What))
+			}
+		}
+	}
+	if len(engineErrs) > 0 {
+		for _, e := range engineErrs {
+			fmt.Println("ENGINE-ERROR", e)
+		}
+	}
+	replayed := 0
+	if len(fails) > 0 {
+		os.MkdirAll(replayDir, 0o755)
+		// one replay run for the property (bounded search on the real code), shared by all failed obligations
+		var rr replayResult
+		if !*noReplay && cfg.Replay != "" {
+			rr = runReplay(*repo, cfg, *prop, seed, *tier, "")
+			replayed = rr.cases
+		}
+		for _, f := range fails {
+			path := filepath.Join(replayDir, vc.SafeName(f.name)+".json")
+			rec := map[string]interface{}{
+				"property": *prop, "obligation": f.name, "reason": f.reason, "solver_output": firstLines(f.output, 60), "model": vc.ModelScalars(f.model),
+				"replay_cmd": fmt.Sprintf("%s/bin/check replay %s", verifDir, path), "harness": cfg.Replay, "pkg": cfg.Pkg,
+				"failing_inputs": rr.fails, "harness_output": firstLines(rr.output, 40),
+			}
+			writeJSON(path, rec)
+			suffix := ""
+			if len(rr.fails) == 0 {
+				suffix = " no-failing-input-found"
+			}
+			lines = append(lines, fmt.Sprintf("FAILED-OBLIGATION %s: %s", f.name, f.reason))
+			lines = append(lines, fmt.Sprintf("VIOLATION property=%s replay=%s%s", *prop, path, suffix))
+			violations++
+		}
+	}
+	for _, l := range lines {
+		fmt.Println(l)
+	}
+	wall := time.Since(start).Seconds()
+	fmt.Printf("%s %s: %d obligations, %d discharged, %d failed (%d known), %d covers ok/%d, %.1fs\n", *prop, *tier, nObl, nDis, len(failed), len(knownHit), coversOK, covers, wall)
+
+	if !*noEvidence {
+		level := cfg.Level
+		if level == "" {
+			level = "proof"
+		}
+		if nDis != nObl || len(cfg.Bounded) > 0 {
+			if level == "proof" && nDis != nObl {
+				level = "other"
+			}
+		}
+		var samples []oblReport
+		for i, r := range reports {
+			if i%maxInt(1, len(reports)/8) == 0 {
+				samples = append(samples, r)
+			}
+		}
+		var funcs []string
+		funcs = append(funcs, cfg.Funcs...)
+		var assumptions []string
+		assumptions = append(assumptions, "A-ARITH: + - * on machine integers are mathematical (no wrap-around); conversions exact")
+		assumptions = append(assumptions, "A-SEQ: one activation at a time; other goroutines only through declared volatile state")
+		assumptions = append(assumptions, "A-EXPOSE: capacity slack of slices is not observable through aliases")
+		assumptions = append(assumptions, "go/ssa (x/tools v0.29.0) translation of the source and govc's SSA-to-SMT encoding (DESIGN 2.13) are trusted")
+		for _, u := range cfg.Undecided {
+			assumptions = append(assumptions, "not decided by this check: "+u)
+		}
+		for _, n := range sortedKeys(notes) {
+			assumptions = append(assumptions, "note: "+n)
+		}
+		tb := sortedKeys(trusted)
+		for _, t := range sortedKeys(unspec) {
+			tb = append(tb, "UNSPECIFIED "+t)
+		}
+		cov := map[string]interface{}{
+			"obligations": nObl, "discharged": nDis,
+			"checker_cmd":  fmt.Sprintf("%s/bin/check %s %s", verifDir, *prop, *tier),
+			"trusted_base": tb,
+			"samples":      samples,
+			"functions_under_contract": funcs,
+			"lemmas":       cfg.Lemmas,
+			"by_solver":    bySolver,
+			"solver_seconds": roundMap(solverTime),
+			"vacuity_covers": covers, "vacuity_covers_reachable": coversOK,
+			"failed_obligations": failedNames(failed),
+			"open_known_findings": len(knownHit),
+			"bounded_standins": cfg.Bounded,
+			"replay_cases_run": replayed,
+			"all_obligations": reports,
+			"explanation": fmt.Sprintf("weakest-precondition style VCs generated by govc from go/ssa of %s's working tree for %d functions under contract; each obligation raced on z3 4.8.12, z3 5.1.0, cvc5 1.0.3 (timeout %s)", *repo, len(cfg.Funcs), timeout),
+		}
+		ev := map[string]interface{}{
+			"property_id": *prop, "tier": *tier, "seed": seed, "level": level, "coverage": cov, "assumptions": assumptions,
+			"wall_s": round3(wall), "violations": violations,
+		}
+		os.MkdirAll(filepath.Join(verifDir, "evidence"), 0o755)
+		writeJSON(filepath.Join(verifDir, "evidence", *prop+".json"), ev)
+	}
+	if len(engineErrs) > 0 {
+		return 2
+	}
+	if nObl == 0 {
+		fmt.Println("ENGINE-ERROR no obligations generated (vacuous check)")
+		return 2
+	}
+	if violations > 0 {
+		return 1
+	}
+	return 0
+}
+
+func failedNames(rs []vc.Result) []string {
+	var out []string
+	for _, r := range rs {
+		out = append(out, r.Obl.Name)
+	}
+	return out
+}
+
+type replayResult struct {
+	fails  []string
+	output string
+	cases  int
+}
+
+// runReplay injects the property's harness into the real package with -overlay and runs it.
+func runReplay(repo string, cfg *PropCfg, prop string, seed int, tier string, model string) replayResult {
+	var rr replayResult
+	src := filepath.Join(verifDir, "replay", cfg.Replay+"_replay_test.go")
+	if _, err := os.Stat(src); err != nil {
+		rr.output = "no replay harness " + src
+		return rr
+	}
+	sc := scratchDir()
+	defer os.RemoveAll(sc)
+	pkgDir := filepath.Join(repo, cfg.Pkg)
+	ov := map[string]map[string]string{"Replace": {filepath.Join(pkgDir, "zz_verif_"+strings.ToLower(cfg.Replay)+"_replay_test.go"): src}}
+	ovPath := filepath.Join(sc, "ov.json")
+	writeJSON(ovPath, ov)
+	pkgArg := "./" + cfg.Pkg
+	if cfg.Pkg == "." || cfg.Pkg == "" {
+		pkgArg = "."
+	}
+	cmd := exec.Command("go", "test", "-overlay", ovPath, "-vet=off", "-count=1", "-timeout", "120s", "-run", "TestVerifReplay_"+cfg.Replay+"$", "-v", pkgArg)
+	cmd.Dir = repo
+	cmd.Env = append(os.Environ(), "GOFLAGS=-mod=mod", "GOPROXY=off", "GOSUMDB=off", "GOTOOLCHAIN=local",
+		fmt.Sprintf("VERIF_SEED=%d", seed), "VERIF_TIER="+tier, "VERIF_MODEL="+model)
+	out, _ := cmd.CombinedOutput()
+	rr.output = string(out)
+	for _, l := range strings.Split(rr.output, "\n") {
+		l = strings.TrimSpace(l)
+		if i := strings.Index(l, "REPLAY-FAIL:"); i >= 0 {
+			rr.fails = append(rr.fails, strings.TrimSpace(l[i+12:]))
+		}
+		if i := strings.Index(l, "REPLAY-CASES:"); i >= 0 {
+			n, _ := strconv.Atoi(strings.TrimSpace(l[i+13:]))
+			rr.cases += n
+		}
+	}
+	return rr
+}
+
+func cmdReplay(args []string) int {
+	if len(args) < 1 {
+		fmt.Println("usage: govc replay <replay.json>")
+		return 2
+	}
+	var rec map[string]interface{}
+	if err := readJSON(args[0], &rec); err != nil {
+		fmt.Println("cannot read", args[0], err)
+		return 2
+	}
+	cfg := &PropCfg{Replay: fmt.Sprint(rec["harness"]), Pkg: fmt.Sprint(rec["pkg"])}
+	rr := runReplay(repoDir, cfg, fmt.Sprint(rec["property"]), 1, "quick", args[0])
+	fmt.Print(rr.output)
+	if len(rr.fails) > 0 {
+		fmt.Printf("VIOLATION property=%v replay=%s\n", rec["property"], args[0])
+		return 1
+	}
+	return 0
+}
+
+// ---------------------------------------------------------------------------
+
+func readJSON(path string, v interface{}) error {
+	data, err := os.ReadFile(path)
+	if err != nil {
+		return err
+	}
+	return json.Unmarshal(data, v)
+}
+
+func writeJSON(path string, v interface{}) {
+	data, _ := json.MarshalIndent(v, "", " ")
+	os.WriteFile(path, append(data, '\n'), 0o644)
+}
+
+func round3(f float64) float64 { return float64(int(f*1000+0.5)) / 1000 }
+
+func roundMap(m map[string]float64) map[string]float64 {
+	o := map[string]float64{}
+	for k, v := range m {
+		o[k] = round3(v)
+	}
+	return o
+}
+
+func sortedKeys(m map[string]bool) []string {
+	var ks []string
+	for k := range m {
+		ks = append(ks, k)
+	}
+	sort.Strings(ks)
+	return ks
+}
+
+func maxInt(a, b int) int {
+	if a > b {
+		return a
+	}
+	return b
+}
+
+func firstLines(s string, n int) string {
+	ls := strings.Split(s, "\n")
+	if len(ls) > n {
+		ls = ls[:n]
+	}
+	return strings.Join(ls, "\n")
 }
